@@ -100,6 +100,66 @@ theorem kind_change_counterexample :
       [direct G [CV.lit 5], direct G [CV.obj 3]] := by
   decide
 
+/-! ## chains: the cache key must carry the whole path of code objects -/
+
+def ChainInv (kf : List Nat → List Nat) (G : List Nat → List CV → Tmpl) (cache : ChainCache) : Prop :=
+  ∀ k sv t, cclookup (k, sv) cache = some t → ∀ p, kf p = k → t = G p sv
+
+/-- **chain_invocation_eq_direct**: for ANY history of lambda chains (any lengths, optional
+    middle links, alternative roots, any interleaving), if the key function applied to the
+    path of code objects is injective (the real `tracker_key` is the identity on paths),
+    every construction yields the statement built directly by the same links with the
+    current values. -/
+theorem chain_invocation_eq_direct (kf : List Nat → List Nat)
+    (hinj : ∀ p q, kf p = kf q → p = q) (G : List Nat → List CV → Tmpl) :
+    ∀ (hist : List (List Nat × List CV × List CV)) (cache : ChainCache), ChainInv kf G cache →
+      (runChains kf G cache hist).map (·.2) =
+        hist.map (fun c => directChain G c.1 c.2.1 c.2.2) := by
+  intro hist
+  induction hist with
+  | nil => intro _ _; rfl
+  | cons c r ih =>
+    intro cache hinv
+    obtain ⟨p, sv, lits⟩ := c
+    cases hl : cclookup (kf p, sv) cache with
+    | some tm =>
+      have := hinv (kf p) sv tm hl p rfl
+      subst this
+      have hstep : invokeChain kf G cache p sv lits = ((true, fill (G p sv) lits), cache) := by
+        simp [invokeChain, hl]
+      simp only [runChains, hstep, List.map_cons]
+      rw [ih cache hinv]
+      rfl
+    | none =>
+      have hstep : invokeChain kf G cache p sv lits =
+          ((false, fill (G p sv) lits), ((kf p, sv), G p sv) :: cache) := by
+        simp [invokeChain, hl]
+      have hinv' : ChainInv kf G (((kf p, sv), G p sv) :: cache) := by
+        intro k sv' t hk q hq
+        simp only [cclookup] at hk
+        by_cases he : (kf p, sv) = (k, sv')
+        · simp only [he, if_true] at hk
+          cases hk
+          have h1 : kf p = k := (Prod.mk.inj he).1
+          have h2 : sv = sv' := (Prod.mk.inj he).2
+          have : p = q := hinj p q (by rw [h1, hq])
+          subst this; subst h2; rfl
+        · simp only [he, if_false] at hk
+          exact hinv k sv' t hk q hq
+      simp only [runChains, hstep, List.map_cons]
+      rw [ih _ hinv']
+      rfl
+
+theorem fullKey_injective : ∀ p q, fullKey p = fullKey q → p = q := fun _ _ h => h
+
+/-- with the key truncated to (parent code, own code) two chains that differ only in an
+    optional earlier link share one entry: the second gets the first one's statement -/
+theorem truncated_key_counterexample :
+    let G : List Nat → List CV → Tmpl := fun p _ => p.map Tok.txt
+    (runChains truncKey G [] [([1, 2, 3, 4], [], []), ([1, 3, 4], [], [])]).map (·.2) ≠
+      [directChain G [1, 2, 3, 4] [] [], directChain G [1, 3, 4] [] []] := by
+  decide
+
 /-! ## non-vacuity -/
 
 example : Stable [false, true, true] [CV.obj 2, CV.lit 7, CV.lit 9] := by
